@@ -10,6 +10,35 @@ for l in open(os.path.join(VERIF, "properties.jsonl")):
 
 # id -> (category, technique, text, note, design_ref)
 CLAIMED = {
+    "C11": ("proof",
+            "Lean 4 theorems (codecs are exact inverses, decoders accept only valid encodings, GF(2) rank proof of 4-error "
+            "detection) + model/implementation correspondence + constants re-extracted from the loaded module",
+            "Props/C11.lean and Props/C11Detect.lean prove, for all inputs and every hash function: base58 decode(encode b)=b "
+            "for every byte string and encode(decode s)=s for every accepted string, the decoder accepts exactly the strings "
+            "over the alphabet and exactly the specified encodings; Base58Check decode accepts exactly the Base58Check texts; "
+            "convertbits 8->5->8 is the identity; the bech32 polymod step is XOR-linear, create/verify is an identity for every "
+            "hrp and data and the checksum is unique; bech32_decode(bech32_encode)=id; bech32.encode yields the BIP173/BIP350 "
+            "text for every valid (hrp, version 0-16, program 2-40 bytes) and decode returns it; whatever bech32.decode returns "
+            "is a valid BIP173/BIP350 address (length, case, hrp, variant for the version, padding, program rules); "
+            "Script.address on the five standard scripts equals the specified Base58Check/BIP173/BIP350 text and "
+            "address_to_scriptpubkey(address(s))=s for every network of a table with disjoint one-byte prefixes (embit's table, "
+            "re-extracted each run, is checked to be such); address_to_scriptpubkey yields a script only for a valid address of "
+            "a table network (so never for a wrong checksum/variant, mixed case, bad program or hash length, unknown prefix or "
+            "HRP). Error detection: a kernel-evaluated GF(2) rank computation (522 decide+kernel checks covering all 109 736 "
+            "placements of four error positions in an 89-symbol window, shift invariance for the rest) proves that two bech32 "
+            "strings accepted with the same variant and hrp that differ in at most four characters are equal up to case, hence "
+            "<= 4 substitutions in a valid segwit address are never accepted unless the HRP became another network's or the "
+            "string is valid for the OTHER variant; that such a cross-variant neighbour exists (4 substitutions, v0 -> v1) is "
+            "proved too, so its acceptance is BIP350 behaviour and is not flagged. The model follows embit after "
+            "fixes/c11-address-decoding-strict.diff and is tied to the repository by running embit and the native Lean driver "
+            "on the same inputs each run (all five script types x all NETWORKS entries, exhaustive single substitutions, "
+            "sampled 2-4, hostile strings with valid checksums); the Lean spec encoders are the oracle for address texts.",
+            "Not proved (stated as GOAL lines): exact characterisation of all cross-variant neighbours; detection when HRP "
+            "characters change two symbols each beyond four symbols in total. Modelled deviations that C11 does not forbid: "
+            "all-upper-case segwit addresses and valid v2-v16 addresses are rejected by address_to_scriptpubkey; an unknown "
+            "Base58 version byte returns None. Trusted: Lean kernel + propext/Quot.sound/Classical.choice; harness generators; "
+            "CPython/hashlib (driver SHA-256 validated against hashlib each run); python str modelled as Unicode scalar lists.",
+            "§5 C11"),
     "C02": ("proof",
             "Lean 4 theorems (sign/skip policy = authorisation rule for all flag combinations; digest dispatch per script type) + independent Lean signature verification against the consensus digest",
             "Props/C02.lean proves for every caller flag, every per-input flag (all naturals) and both input kinds that an input is "
